@@ -1,6 +1,7 @@
 from __future__ import annotations
 
 import typing as t
+from copy import deepcopy
 
 
 from sqlglot.optimizer.annotate_types import TypeAnnotator
@@ -115,8 +116,9 @@ class BigQuery(Dialect):
     SET_OP_DISTINCT_BY_DEFAULT = dict.fromkeys((exp.Except, exp.Intersect, exp.Union), None)
 
     # https://cloud.google.com/bigquery/docs/reference/standard-sql/navigation_functions#percentile_cont
+    # A deep copy, because the sets of the shared table are updated in place below
     COERCES_TO = {
-        **TypeAnnotator.COERCES_TO,
+        **deepcopy(TypeAnnotator.COERCES_TO),
         exp.DType.BIGDECIMAL: {exp.DType.DOUBLE},
     }
     COERCES_TO[exp.DType.DECIMAL] |= {exp.DType.BIGDECIMAL}
